@@ -211,7 +211,8 @@ def check(chk):
     rets = _returns(aj)
     okj = False
     if len(rets) == 1:
-        v = rets[0].value
+        from ..sem import resolve
+        v = resolve(aj, rets[0].value)
         if isinstance(v, ast.Call) and isinstance(v.func, ast.Name) and v.func.id == 'min' and len(v.args) == 2:
             texts = [src(x) for x in v.args]
             if 'self.max_delay' in texts:
